@@ -431,6 +431,56 @@ def eval_probe(cx: H11.Ctx, case: dict[str, Any], r: random.Random) -> None:
             okv = (K.fbin(g) == m) if is_int else float_close(d, g, m)
             if not okv and not tie(x, lo, st):
                 cx.broke("projection", "TPE discretisation of %r for %r: code %r / model %s" % (x, d, g, m))
+    # -- (b') TPE continuous path (float without step): scripted raw truncnorm samples, and the smallest uniform draw ----
+    if st is None and not is_int and not d.log and hi > lo:
+        arr = np.array(raws, dtype=np.float64)
+        orig = PD._truncnorm.rvs
+        try:
+            PD._truncnorm.rvs = lambda **kw: arr  # type: ignore[assignment]
+            mix = PD._MixtureOfProductDistribution(
+                weights=np.array([1.0]),
+                distributions=[PD._BatchedTruncNormDistributions(mu=np.array([lo]), sigma=np.array([max(hi - lo, 1e-300)]), low=lo, high=hi)])
+            ret = mix.sample(np.random.RandomState(0), len(raws))[:, 0]
+        finally:
+            PD._truncnorm.rvs = orig  # type: ignore[assignment]
+        for x, g in zip(raws, ret.tolist()):
+            cx.count("probe:tpe-cont")
+            why = member(d, g)
+            if why is not None:
+                cx.viol("projection-outside-domain", "TPE continuous sample %r for %r is returned as %r: %s" % (x, d, g, why))
+                continue
+            m = K.pr(cx.ask({"op": "tpeCont", "low": K.rs(K.fbin(lo)), "high": K.rs(K.fbin(hi)), "s": K.rs(K.fbin(x))}))
+            if K.fbin(g) != m:
+                cx.broke("projection", "TPE continuous sample %r for %r: code %r / model %s" % (x, d, g, m))
+        # the real `_truncnorm.rvs` with the extreme uniform draws 0 and 1 - 2^-53 (what numpy's generator can return): the
+        # rescaling ppf(q) * sigma + mu may round outside [low, high]
+        class _EdgeRNG(np.random.RandomState):
+            def __init__(self, q: float) -> None:
+                super().__init__(0)
+                self.q = q
+
+            def uniform(self, low: Any = 0.0, high: Any = 1.0, size: Any = None) -> Any:
+                return np.full(size if size is not None else (), self.q)
+
+        for q in (0.0, 1.0 - 2.0 ** -53):
+            for _ in range(6):
+                mu = lo + (hi - lo) * r.random()
+                sg = (hi - lo) * r.choice([0.01, 0.1, 0.5, 1.0, 3.0]) * (0.5 + r.random())
+                if not (sg > 0 and math.isfinite(sg)):
+                    continue
+                mix = PD._MixtureOfProductDistribution(
+                    weights=np.array([1.0]),
+                    distributions=[PD._BatchedTruncNormDistributions(mu=np.array([mu]), sigma=np.array([sg]), low=lo, high=hi)])
+                with np.errstate(all="ignore"), warnings.catch_warnings():
+                    warnings.simplefilter("ignore")
+                    g = float(mix.sample(_EdgeRNG(q), 1)[0, 0])
+                cx.count("probe:tpe-cont-edge")
+                if math.isnan(g):
+                    continue
+                why = member(d, g)
+                if why is not None:
+                    cx.viol("projection-outside-domain", "TPE continuous path with uniform draw %r (mu=%r, sigma=%r) for %r returns %r: %s" % (q, mu, sg, d, g, why))
+                    break
     # -- (c) TPE `_untransform` + to_external_repr (ints, incl. log ints) --------------------------------------------
     if is_int:
         pe = _ParzenEstimator({"x": np.array([])}, {"x": d}, TPESampler()._parzen_estimator_parameters)
